@@ -197,6 +197,32 @@ func (e *Engine) intercept(fr *frame, fn *ssa.Function, args []Value) (Value, bo
 		}
 		c.V = tb.IntBin("+", it, c.V.(*Term), args[1].(*Term), e.ovf)
 		return c.V, true
+	case "sync/atomic.SwapInt64", "sync/atomic.SwapUint64", "sync/atomic.SwapInt32", "sync/atomic.SwapUint32":
+		c := args[0].(PtrVal).C
+		if c == nil {
+			e.progPanicAt(fr, "nil pointer dereference (atomic swap)")
+		}
+		if e.evNamed(c) {
+			old := e.evAtomic(fr, c, "load", nil)
+			e.evAtomic(fr, c, "store", args[1].(*Term))
+			return old, true
+		}
+		old := c.V
+		c.V = args[1]
+		return old, true
+	case "sync/atomic.CompareAndSwapInt64", "sync/atomic.CompareAndSwapUint64", "sync/atomic.CompareAndSwapInt32", "sync/atomic.CompareAndSwapUint32":
+		c := args[0].(PtrVal).C
+		if c == nil {
+			e.progPanicAt(fr, "nil pointer dereference (atomic cas)")
+		}
+		if e.evNamed(c) {
+			panic(engineErr("atomic compare-and-swap on shared state is not modelled in event mode"))
+		}
+		if e.branch(tb.Eq(c.V.(*Term), args[1].(*Term))) {
+			c.V = args[2]
+			return tb.Bool(true), true
+		}
+		return tb.Bool(false), true
 	case "(*sync.Map).Load":
 		e.stub("sync.Map")
 		m := e.syncMapOf(args[0].(PtrVal).C)
@@ -344,6 +370,64 @@ func (e *Engine) intercept(fr *frame, fn *ssa.Function, args []Value) (Value, bo
 		}
 		e.stub("rand.Float64->verifRandFn")
 		return e.callFunc(fr, fv, nil), true
+	case "math/rand.Int63n", "math/rand.Int31n", "math/rand.Intn":
+		// any value in [0, n): a nondeterministic stub (n <= 0 panics in the real library)
+		e.stub("math/rand.Int63n/Intn (arbitrary value in [0,n))")
+		n := args[0].(*Term)
+		it := i64
+		pos := tb.Cmp(">", it, n, tb.BVConst(0, 64))
+		if !e.branch(pos) {
+			e.progPanicAt(fr, "panic: invalid argument to Int63n")
+		}
+		r := e.newIntInput("randInt", i64)
+		e.assume(tb.And(tb.Cmp(">=", it, r, tb.BVConst(0, 64)), tb.Cmp("<", it, r, n)))
+		return r, true
+	case "math/rand.Int63", "math/rand.Int":
+		e.stub("math/rand.Int63 (arbitrary non-negative value)")
+		r := e.newIntInput("randInt", i64)
+		e.assume(tb.Cmp(">=", i64, r, tb.BVConst(0, 64)))
+		return r, true
+	case "math.Abs":
+		x := args[0].(*Term)
+		if x.IsConst() && x.IsF {
+			f := x.F
+			if f < 0 {
+				f = -f
+			}
+			return tb.RealConstF(f), true
+		}
+		return tb.Ite(tb.Cmp("<", IntTy{}, x, tb.RealConstF(0)), tb.RealExact("-", tb.RealConstF(0), x), x), true
+	case "math.Min", "math.Max":
+		a, b := args[0].(*Term), args[1].(*Term)
+		lt := tb.Cmp("<", IntTy{}, a, b)
+		if fn.Name() == "Min" {
+			return tb.Ite(lt, a, b), true
+		}
+		return tb.Ite(lt, b, a), true
+	case "time.Until":
+		ns, zero := e.timeNs(args[0])
+		if zero {
+			e.now(fr)
+			return tb.BVConst(1<<63, 64), true
+		}
+		return tb.IntBin("-", i64, ns, e.now(fr), e.ovf), true
+	case "(time.Duration).Nanoseconds":
+		return args[0], true
+	case "(time.Time).Unix":
+		ns, zero := e.timeNs(args[0])
+		if zero {
+			return tb.BVConst(uint64(0xfffffff1886e0900), 64), true
+		}
+		return tb.IntBin("/", i64, ns, tb.BVConst(1000000000, 64), e.ovf), true
+	case "(time.Time).Compare":
+		a, za := e.timeNs(args[0])
+		b, zb := e.timeNs(args[1])
+		if za || zb {
+			panic(engineErr("comparison with the zero time.Time is not modelled"))
+		}
+		return tb.Ite(tb.Cmp("<", i64, a, b), tb.BVConst(^uint64(0), 64), tb.Ite(tb.Eq(a, b), tb.BVConst(0, 64), tb.BVConst(1, 64))), true
+	case "sort.SliceStable":
+		return e.sortSliceStub(fr, args), true
 	// ---------------- xxhash ----------------
 	case "github.com/cespare/xxhash/v2.Sum64":
 		return e.hashBytes(fr, args[0].(SliceVal)), true
@@ -506,6 +590,7 @@ func (e *Engine) hashTerms(bs []*Term) *Term {
 		}
 	}
 	h := e.tb.App(fmt.Sprintf("xxh%d", len(bs)), BV(64), bs...)
+	e.hashApps = append(e.hashApps, hashApp{bs, h})
 	if e.mode == "int" {
 		panic(engineErr("symbolic hashing in integer mode is not modelled"))
 	}
@@ -759,6 +844,8 @@ func (e *Engine) intrinsic(fr *frame, name string, args []Value) (Value, bool) {
 		e.fpExact = true
 		e.stub("float64 arithmetic idealised as exact reals (no rounding terms)")
 		return nil, true
+	case "verifHash":
+		return e.hashBytes(fr, args[0].(SliceVal)), true
 	case "verifIsNilFunc":
 		return tb.Bool(args[0].(*FuncVal) == nil), true
 	}
